@@ -189,8 +189,36 @@ func treeDiff(a, b any, path string) string {
 			}
 		}
 		if !namesMatch {
-			// oneOf carriers: variant fields are named after component or position;
-			// compare positionally by sorted set/unset pattern
+			// oneOf carriers: variant fields are named after the component or the
+			// position; exactly one is set on each side: compare the set ones
+			var sa, sb []any
+			carrier := true
+			for _, k := range ka {
+				m, ok := av[k].(map[string]any)
+				if !ok {
+					carrier = false
+					break
+				}
+				if set, _ := m["set"].(bool); set {
+					sa = append(sa, m["value"])
+				}
+			}
+			for _, k := range kb {
+				m, ok := bv[k].(map[string]any)
+				if !ok {
+					carrier = false
+					break
+				}
+				if set, _ := m["set"].(bool); set {
+					sb = append(sb, m["value"])
+				}
+			}
+			if carrier && len(sa) == 1 && len(sb) == 1 {
+				return treeDiff(sa[0], sb[0], path+".<variant>")
+			}
+			if carrier && len(sa) == 0 && len(sb) == 0 {
+				return ""
+			}
 			va := make([]string, 0, len(ka))
 			vb := make([]string, 0, len(kb))
 			for _, k := range ka {
@@ -402,11 +430,27 @@ func cloneRequest(method, target string, hdr http.Header, body []byte) *http.Req
 
 // CheckC18 runs on side A of a pair and loads side B by name.
 func CheckC18(p *Pkg, e *Env, r *res.Result) {
-	if p.Meta["side"] != "A" {
-		return
-	}
 	bname, _ := p.Meta["other"].(string)
 	rewrite, _ := p.Meta["rewrite"].(string)
+	if p.Meta["side"] != "A" {
+		// side B only checks that its original exists: goag refusing exactly one side
+		// of a pair is a difference in behaviour
+		if _, ok := registered[bname]; !ok {
+			dropped := map[string]string{}
+			if bs, rerr := os.ReadFile(filepath.Join(e.Dir, "specs", "dropped.json")); rerr == nil {
+				json.Unmarshal(bs, &dropped)
+			}
+			if strings.HasPrefix(dropped[bname], "does not compile") {
+				r.Label("pair:original-does-not-compile") // C01's business (pre-filter), counted
+				return
+			}
+			rawA, _ := os.ReadFile(filepath.Join(e.Dir, "specs", bname+".json"))
+			f := res.Failure{Property: "C18", Kind: "one-side-refused:original", Clause: "one-side-refused", Detail: fmt.Sprintf("pair %s/%s (%s): the rewritten spec generates and compiles but the original does not: %s", bname, p.Name, rewrite, dropped[bname]),
+				Replay: p.SpecReplay(map[string]any{"original.openapi.json": string(rawA)})}
+			FailOrKnown(p, e, r, f)
+		}
+		return
+	}
 	report := func(kind, msg string, replay map[string]any) bool {
 		f := res.Failure{Property: "C18", Kind: kind, Clause: kind, Detail: fmt.Sprintf("pair %s/%s (%s, changed %v): %s", p.Name, bname, rewrite, p.Meta["changed"], msg), Replay: p.SpecReplay(replay)}
 		return FailOrKnown(p, e, r, f)
@@ -433,7 +477,8 @@ func CheckC18(p *Pkg, e *Env, r *res.Result) {
 			report("rewritten-side-does-not-compile:"+cls, "the original compiles but the rewritten spec does not: "+why, map[string]any{"rewritten.openapi.json": string(rawB)})
 			return
 		}
-		r.Label("pair:other-side-refused-by-goag") // outside the domain
+		rawB, _ := os.ReadFile(filepath.Join(e.Dir, "specs", bname+".json"))
+		report("one-side-refused:rewritten", "the original generates and compiles but goag refuses the rewritten spec: "+why, map[string]any{"rewritten.openapi.json": string(rawB)})
 		return
 	}
 	silenceLogError(p)
@@ -562,8 +607,12 @@ func CheckC18(p *Pkg, e *Env, r *res.Result) {
 			docs := docResponses(p, op)
 			infosA, probA := linkImplementers(ia, op, docs)
 			infosB, probB := linkImplementers(ib, opB, docResponses(q, opB))
-			if len(probA)+len(probB) > 0 || len(infosA) == 0 {
-				r.Label("response:unlinked") // C02's business
+			if (len(probA) > 0) != (len(probB) > 0) {
+				fail("response-linking-differs", fmt.Sprintf("response types write documented statuses on one side only: original %v, rewritten %v", probA, probB), nil)
+				return
+			}
+			if len(probA) > 0 || len(infosA) == 0 {
+				r.Label("response:unlinked-on-both-sides") // C02's business
 				return
 			}
 			info := infosA[rapid.IntRange(0, len(infosA)-1).Draw(t, "impl")]
